@@ -555,6 +555,18 @@ func (w *World) QuickClose() {
 	w.S.StopActors()
 }
 
+// bubbleGoroutinesExcept is bubbleGoroutines without those whose stack mentions
+// the given word.
+func bubbleGoroutinesExcept(word string) []string {
+	var out []string
+	for _, g := range bubbleGoroutines() {
+		if !strings.Contains(g, word) {
+			out = append(out, g)
+		}
+	}
+	return out
+}
+
 // bubbleGoroutines lists goroutines of the current synctest bubble other than
 // the caller, reduced to their library frames.
 func bubbleGoroutines() []string {
